@@ -33,4 +33,29 @@ impl Instant {
     pub fn time_until(&self) -> (r: Duration)
         ensures r == until(*self)
     { unimplemented!() }
+    /// the clock: an arbitrary instant (nothing about its value is used; monotonicity is A-clock)
+    #[verifier::external_body]
+    pub fn now() -> (r: Instant) { unimplemented!() }
+    /// Ord::min / Ord::max on Instant
+    #[verifier::external_body]
+    pub fn min(self, other: Instant) -> (r: Instant)
+        ensures r == (if self.t <= other.t { self } else { other })
+    { unimplemented!() }
+    #[verifier::external_body]
+    pub fn max(self, other: Instant) -> (r: Instant)
+        ensures r == (if self.t >= other.t { self } else { other })
+    { unimplemented!() }
+}
+/// `Instant + Duration`: panics on overflow of the platform representation; the model demands the
+/// (conservative) range of 1000 years, inside which std never overflows.
+pub uninterp spec fn instant_plus(i: Instant, d: Duration) -> Instant;
+impl vstd::std_specs::ops::AddSpecImpl<Duration> for Instant {
+    open spec fn obeys_add_spec() -> bool { true }
+    open spec fn add_req(self, rhs: Duration) -> bool { rhs.ms <= 31_536_000_000_000 }
+    open spec fn add_spec(self, rhs: Duration) -> Instant { instant_plus(self, rhs) }
+}
+impl core::ops::Add<Duration> for Instant {
+    type Output = Instant;
+    #[verifier::external_body]
+    fn add(self, rhs: Duration) -> (r: Instant) { unimplemented!() }
 }
